@@ -325,4 +325,43 @@ example : unaryGate .connect [53] = none := by decide
 example : connectParseTimeout [49, 50] = .ok 12000000 := by decide
 example : grpcParseTimeout [57, 57, 57, 57, 57, 57, 57, 57, 72] /- 99999999H -/ = .noTimeout := by decide
 
+/-! ### F20: the timeout is that of the moment the request goes out -/
+
+/-- **late_send_never_extends (gRPC, gRPC-Web)**: however long after the call's creation the
+    request goes out (before the deadline), the deadline the peer derives from `Grpc-Timeout` is
+    never later than the client's own — and earlier by less than 0.01 % of what remained. -/
+theorem late_send_never_extends_grpc (dl created sent : Int) (_h0 : created ≤ sent) (h1 : sent < dl)
+    (h2 : dl - sent < 2 ^ 63) :
+    ∃ pd, peerDeadline grpcEncodeTimeout grpcParseTimeout (headerRemaining dl created sent) sent = some pd ∧
+      pd ≤ dl ∧ 10000 * (dl - pd) < dl - sent := by
+  obtain ⟨s, v, he, _, hp, hle, hgr⟩ := grpc_encode_bound (dl - sent) (by omega) h2
+  refine ⟨sent + v, ?_, by omega, by omega⟩
+  simp [peerDeadline, headerRemaining, he, hp]
+
+/-- **late_send_never_extends (Connect)**: the same with millisecond granularity, for remaining
+    times that are sent at all (at least 1 ms, at most 10 digits of milliseconds). -/
+theorem late_send_never_extends_connect (dl created sent : Int) (_h0 : created ≤ sent)
+    (hlo : 1000000 ≤ dl - sent) (hhi : (dl - sent) / 1000000 < 10000000000) :
+    ∃ pd, peerDeadline connectEncodeTimeout connectParseTimeout (headerRemaining dl created sent) sent = some pd ∧
+      pd ≤ dl ∧ dl - pd < 1000000 := by
+  obtain ⟨s, v, he, _, hp, hle, hgr⟩ := connect_encode_bound (dl - sent) hlo hhi
+  refine ⟨sent + v, ?_, by omega, by omega⟩
+  simp [peerDeadline, headerRemaining, he, hp]
+
+/-- **History, F20** — the pinned tree computed the header when the call was created: a call
+    created at 0 with a 2 s deadline whose first `Send` comes at 1.2 s told the peer (about) 2 s,
+    and the handler's deadline came out more than a second after the client's. -/
+theorem late_send_extended_on_pinned :
+    (∃ pd, peerDeadline grpcEncodeTimeout grpcParseTimeout (headerRemainingPinned 2000000000 0 1200000000) 1200000000
+      = some pd ∧ pd > 2000000000 + 1000000000) ∧
+    (∃ pd, peerDeadline connectEncodeTimeout connectParseTimeout (headerRemainingPinned 2000000000 0 1200000000) 1200000000
+      = some pd ∧ pd > 2000000000 + 1000000000) := by
+  constructor
+  · obtain ⟨s, v, he, _, hp, hle, hgr⟩ := grpc_encode_bound 2000000000 (by omega) (by decide)
+    refine ⟨1200000000 + v, ?_, by omega⟩
+    simp [peerDeadline, headerRemainingPinned, he, hp]
+  · obtain ⟨s, v, he, _, hp, hle, hgr⟩ := connect_encode_bound 2000000000 (by omega) (by omega)
+    refine ⟨1200000000 + v, ?_, by omega⟩
+    simp [peerDeadline, headerRemainingPinned, he, hp]
+
 end ConnectModel.C10
